@@ -40,3 +40,13 @@ Definition c19_oracle (t : table) (c : c19_case) : option N :=
       | None => Some 0
       end
   end.
+
+(* validity of a location case: the location is in the table and passes the lock-discipline check — then
+   C19_lockset_sound_at applies to it: no conforming trace races on it *)
+Definition c19_valid (t : table) (c : c19_case) : Prop :=
+  match c with KLoc n _ => exists l, find_loc n t = Some l /\ check_location l = true end.
+Definition c19_validb (t : table) (c : c19_case) : bool :=
+  match c with KLoc n _ => match find_loc n t with Some l => check_location l | None => false end end.
+(* what a shard evaluates: agreement with the translator's verdict, and valid or already rejected by the oracle *)
+Definition c19_check_covered (t : table) (c : c19_case) : bool :=
+  c19_check t c && (c19_validb t c || match c19_oracle t c with Some _ => true | None => false end).
